@@ -882,7 +882,15 @@ def mon_C13(t):
         worker_pt = at_point if p[0] in ("workerp", "runw") else worker_pt
         if r["roles"]["worker"] in ("draining", "exited") and not worker_pt and any(a == 0 for a in r["acks"]):
             out.append(fail(t, i, "ack-pending-after-shutdown-executed", "acknowledgements %s still pending although the worker has executed Shutdown" % [a for a, s in enumerate(r["acks"]) if s == 0]))
+        if shut_done and worker_died_unrecorded(r) and any(a == 0 for a in r["acks"]):
+            out.append(fail(t, i, "ack-never-completes-worker-died", "shutdown() has returned, the worker thread has died (%s) and acknowledgements %s can never complete" % (r["roles"]["worker"][:160], [a for a, s in enumerate(r["acks"]) if s == 0])))
     return out
+
+
+def worker_died_unrecorded(r):
+    """the worker thread has died of something other than the recorded C17 findings (time-to-live overflow, weight overflow)"""
+    w = r["roles"]["worker"]
+    return w.startswith("dead") and "overflow" not in w
 
 
 def mon_C15(t):
@@ -1178,7 +1186,7 @@ def mon_window(t):
 READ_OPS = ("get", "get_ref", "map_get", "map_get_ref")
 WRITE_OPS = ("put", "put_w", "put_ttl", "put_w_ttl", "upsert", "delete")
 MICRO_CHECKS = {"C01": ("accounting",), "C05": ("accounting",), "C07": ("accounting",), "C11": ("accounting",),
-                "C02": ("deleted",), "C04": ("deleted",), "C13": ("flag",), "C15": ("hits",), "C16": ("balances",)}
+                "C02": ("deleted",), "C04": ("deleted",), "C13": ("flag", "acks"), "C15": ("hits",), "C16": ("balances",)}
 
 
 def mon_micro(pid, sched, recs):
@@ -1191,6 +1199,7 @@ def mon_micro(pid, sched, recs):
       flag        from the moment shutdown() has raised the flag, every call that begins is refused (writes: error, reads: nothing)
       balances    at every state, worker windows included, while the flag is down: KeysAdded - KeysDeleted = stored keys and
                   WeightAdded - WeightRemoved = total (mod 2^64)
+      acks        once the worker has executed Shutdown (or has died after shutdown() was called) no acknowledgement is pending
       hits        while the flag is down: hits = buffered + AccessAdded + AccessDropped + reads stopped between lookup and record"""
     checks = MICRO_CHECKS.get(pid, ())
     cfg = full_cfg(sched["cfg"])
@@ -1257,6 +1266,12 @@ def mon_micro(pid, sched, recs):
                 ok = bool(ret) and ret[0] == 5 and all(v == -1 for v in ret[1:])
             if not ok:
                 fail("micro-call-after-flag-not-refused", "the call '%s %s' began after shutdown() had raised the flag and was answered %s" % (op, " ".join(began[1]), ret), i)
+        if "acks" in checks:
+            pend = [a for a, st_ in enumerate(r["acks"]) if st_ == 0]
+            if pend and r["roles"]["worker"] in ("draining", "exited") and not worker_inside:
+                fail("ack-pending-after-shutdown-executed", "acknowledgements %s still pending although the worker has executed Shutdown" % pend, i)
+            if pend and flag_up and not at and worker_died_unrecorded(r):
+                fail("ack-never-completes-worker-died", "shutdown() has been called, the worker thread has died (%s) and acknowledgements %s can never complete" % (r["roles"]["worker"][:160], pend), i)
         if "accounting" in checks and not worker_inside and snap["shut"] == 0 and not flag_up:
             charges = sum(w[3] for w in snap["weights"])
             ids_w = sorted(w[0] for w in snap["weights"])
